@@ -14,9 +14,15 @@ import ast
 import z3
 from . import fl
 from .vals import SArr, SFunc, Unsupported, fresh_name, I, SObj
-from .lazy import LArr, SChunks, shape_of, dtype_of, elem, base_of, frozen, zi, _Lit
+from .lazy import LArr, SChunks, shape_of, dtype_of, elem, base_of, frozen, zi, _Lit, _mentions
 from .state import array_read
 from .expr import to_int, simp_bool, zb
+
+
+class Stride:
+    """the stride of one axis of an array (a.strides[k])"""
+    def __init__(self, arr, axis):
+        self.arr, self.axis = arr, axis
 
 
 class GChunks(SChunks):
@@ -58,30 +64,41 @@ class WindowMixin:
         if n.attr == "strides":
             base = self.eval(n.value, st)
             if isinstance(base, (SArr, LArr)):
-                return ("strides", base)
+                return tuple(Stride(base, k) for k in range(len(shape_of(base))))
             return super().e_Attribute(ast.Attribute(value=_Lit(base), attr=n.attr, ctx=n.ctx, lineno=n.lineno, col_offset=0), st)
         return super().e_Attribute(n, st)
 
     def b_numpy_lib_stride_tricks_as_strided(self, args, kw, st, n):
+        """as_strided(a, shape=S, strides=T) where every entry of T is the stride of an axis of `a` itself: element
+        [i_1 .. i_m] is a[idx] with idx[axis] = sum of the i_j whose stride is that axis's (byte offset sum_j i_j * stride_j)"""
         a = args[0]
         shp = kw.get("shape", args[1] if len(args) > 1 else None)
         strides = kw.get("strides", args[2] if len(args) > 2 else None)
-        if not (isinstance(a, (SArr, LArr)) and len(shape_of(a)) == 2 and isinstance(shp, tuple) and len(shp) == 4
-                and isinstance(strides, tuple) and len(strides) == 4 and strides[0] == "strides" and strides[2] == "strides"
-                and strides[1] is a and strides[3] is a):
-            raise Unsupported("as_strided form: only as_strided(a2d, shape=(.., .., h, w), strides=a.strides + a.strides) (line %d)" % n.lineno)
-        H, W = shape_of(a)
-        s0, s1, h, w = [zi(to_int(x)) for x in shp]
+        if not (isinstance(a, (SArr, LArr)) and isinstance(shp, tuple) and isinstance(strides, tuple) and len(shp) == len(strides)
+                and all(isinstance(t, Stride) and t.arr is a for t in strides)):
+            raise Unsupported("as_strided form: strides must be strides of the array itself (line %d)" % n.lineno)
+        nd = len(shape_of(a))
+        dims = [zi(to_int(x)) for x in shp]
+        axes = [t.axis for t in strides]
         if not self.spec:
-            # memory safety of the view: every window lies inside the array
-            g = simp_bool(z3.And(s0 >= 0, s1 >= 0, h >= 0, w >= 0,
-                                 z3.Or(s0 == 0, h == 0, s0 - 1 + h - 1 < zi(H)), z3.Or(s1 == 0, w == 0, s1 - 1 + w - 1 < zi(W))))
+            # memory safety of the view: on every axis the largest reachable index stays inside the array
+            conds = [d >= 0 for d in dims]
+            empty = z3.Or(*[d == 0 for d in dims])
+            for ax in range(nd):
+                js = [j for j, k in enumerate(axes) if k == ax]
+                if js:
+                    reach = sum([dims[j] - 1 for j in js][1:], dims[js[0]] - 1)
+                    conds.append(z3.Or(empty, reach < zi(shape_of(a)[ax])))
+            g = simp_bool(z3.And(*conds))
             if g is not True:
                 self.emit(st, "bounds", "as_strided.L%d" % n.lineno, g, n,
                           "as_strided windows stay inside the base array (no out-of-bounds memory is exposed)")
 
-        def mp(ix):
-            return [zi(ix[0]) + zi(ix[2]), zi(ix[1]) + zi(ix[3])]
+        def mp(ix, axes=axes, nd=nd):
+            out = [z3.IntVal(0)] * nd
+            for j, k in enumerate(axes):
+                out[k] = out[k] + zi(ix[j])
+            return [z3.simplify(t) if z3.is_expr(t) else t for t in out]
 
         def get(ix, st2, a=a, mp=mp):
             return elem(a, mp(ix), st2)
@@ -89,8 +106,7 @@ class WindowMixin:
         b = base_of(a)
         if b is not None:
             base = (b[0], lambda ix, b=b, mp=mp: b[1](mp(ix)))
-        r = LArr(dtype_of(a), [z3.simplify(s0), z3.simplify(s1), z3.simplify(h), z3.simplify(w)], get, base, name="windows")
-        return r
+        return LArr(dtype_of(a), [z3.simplify(d) for d in dims], get, base, name="windows")
 
     # ------------------------------------------------------------------------------------------------------- array_split
     def b_numpy_array_split(self, args, kw, st, n):
@@ -107,63 +123,88 @@ class WindowMixin:
 
     # ------------------------------------------------------------------------------------------------ window functionals
     def window_geometry(self, a, axes, n):
-        """a: view whose `axes` (two of them) range over a window of a heap array.  -> (arr0, origin(ix_other) -> (y0, x0), h, w)"""
+        """a: view whose `axes` range over a box of a heap array.  -> (arr0, origin(ix_other) -> base origin, base extents, out shape)
+        Every reduced axis must advance exactly one base axis by one; a base axis advanced by no reduced axis has extent 1."""
         b = base_of(a)
         if b is None:
             raise Unsupported("window reduction of a computed array (line %d)" % n.lineno)
         arr0, mp = b
         shape = list(shape_of(a))
-        if len(arr0.shape) != 2:
-            raise Unsupported("window reduction: base array must be 2-D (line %d)" % n.lineno)
+        nb = len(arr0.shape)
         probe = [z3.Int(fresh_name("wp")) for _ in shape]
         ab = [zi(t) for t in mp(probe)]
+        if len(ab) != nb:
+            raise Unsupported("window reduction: base index arity (line %d)" % n.lineno)
         zero = [(probe[k], z3.IntVal(0)) for k in axes]
         org = [z3.simplify(z3.substitute(t, *zero)) for t in ab]
-        # the two window axes must advance exactly one base axis each, by one
-        s = z3.Solver()
-        s.set("timeout", 2000)
-        s.add(z3.Not(z3.And(ab[0] == org[0] + probe[axes[0]], ab[1] == org[1] + probe[axes[1]])))
-        if s.check() != z3.unsat:
-            raise Unsupported("window reduction: the reduced axes are not a contiguous window of the base array (line %d)" % n.lineno)
+        owner = {}
+        for r in axes:
+            hit = [k for k in range(nb) if _mentions(ab[k], probe[r])]
+            if len(hit) != 1 or hit[0] in owner.values():
+                raise Unsupported("window reduction: a reduced axis must advance exactly one base axis of its own (line %d)" % n.lineno)
+            owner[r] = hit[0]
+        sv = z3.Solver()
+        sv.set("timeout", 2000)
+        want = []
+        for k in range(nb):
+            rs = [r for r in axes if owner[r] == k]
+            want.append(ab[k] == (org[k] + probe[rs[0]] if rs else org[k]))
+        sv.add(z3.Not(z3.And(*want)))
+        if sv.check() != z3.unsat:
+            raise Unsupported("window reduction: the reduced axes are not a contiguous box of the base array (line %d)" % n.lineno)
+        extents = []
+        for k in range(nb):
+            rs = [r for r in axes if owner[r] == k]
+            extents.append(zi(shape[rs[0]]) if rs else z3.IntVal(1))
         others = [k for k in range(len(shape)) if k not in axes]
 
         def origin(ix, org=org, probe=probe, others=others):
             sub = [(probe[k], zi(v)) for k, v in zip(others, ix)]
             return [z3.simplify(z3.substitute(t, *sub)) if sub else t for t in org]
-        return arr0, origin, zi(shape[axes[0]]), zi(shape[axes[1]]), [shape[k] for k in others]
+        return arr0, origin, extents, [shape[k] for k in others]
 
-    def window_uf(self, arr0, tag, st, nextra=0, nanmedian=False):
+    def window_uf(self, arr0, tag, st, nextra=0, kind=None):
+        """uninterpreted functional of (contents of arr0; box origin, box extents, extra scalars), with the assumed contract of
+        `kind` ('nanmedian', 'sum') attached once per array contents"""
         h_ = arr0.snap if arr0.snap is not None else st.heap[arr0.cell]
         self._keep.append(h_)
-        key = ("win", tag, tuple(x.get_id() for x in (h_ if isinstance(h_, tuple) else (h_,))), nextra)
+        nb = len(arr0.shape)
+        key = ("win", tag, tuple(x.get_id() for x in (h_ if isinstance(h_, tuple) else (h_,))), nextra, nb)
         if key in self._uf_cache:
             return self._uf_cache[key]
-        ret_float = True
-        UFk = z3.Function(fresh_name(tag + "_k"), *([I] * 4 + [z3.RealSort()] * nextra + [fl.FK]))
-        UFv = z3.Function(fresh_name(tag + "_v"), *([I] * 4 + [z3.RealSort()] * nextra + [z3.RealSort()]))
-        if nanmedian:
-            y0, x0, h, w, p, q = [z3.Int(fresh_name(c)) for c in ("y0", "x0", "h", "w", "p", "q")]
-            r = fl.SFloat(UFk(y0, x0, h, w), UFv(y0, x0, h, w))
+        sig = [I] * (2 * nb) + [z3.RealSort()] * nextra
+        UFk = z3.Function(fresh_name(tag + "_k"), *(sig + [fl.FK]))
+        UFv = z3.Function(fresh_name(tag + "_v"), *(sig + [z3.RealSort()]))
+        if kind in ("nanmedian", "sum") and arr0.dt == "f":
+            o = [z3.Int(fresh_name("o%d" % k)) for k in range(nb)]
+            e = [z3.Int(fresh_name("e%d" % k)) for k in range(nb)]
+            p = [z3.Int(fresh_name("p%d" % k)) for k in range(nb)]
+            r = fl.SFloat(UFk(*(o + e)), UFv(*(o + e)))
             frozen_arr = SArr(arr0.cell, arr0.dt, arr0.shape, (), arr0.name, snap=h_)
-            e = fl.F(array_read(st, frozen_arr, [p, q]))
-            inw = z3.And(p >= y0, p < y0 + h, q >= x0, q < x0 + w)
-            allnan = z3.ForAll([p, q], z3.Implies(inw, fl.isnan(e)))
-            lo = z3.Exists([p, q], z3.And(inw, z3.Not(fl.isnan(e)), fl.le(e, r)))
-            hi = z3.Exists([p, q], z3.And(inw, z3.Not(fl.isnan(e)), fl.le(r, e)))
-            ax = z3.ForAll([y0, x0, h, w], z3.Implies(z3.And(h >= 1, w >= 1), z3.And(
-                fl.isnan(r) == allnan, z3.Implies(z3.Not(fl.isnan(r)), z3.And(lo, hi)))), patterns=[UFk(y0, x0, h, w)])
-            self.axioms.append(ax)
+            el = fl.F(array_read(st, frozen_arr, p))
+            inw = z3.And(*[z3.And(p[k] >= o[k], p[k] < o[k] + e[k]) for k in range(nb)])
+            nonempty = z3.And(*[e[k] >= 1 for k in range(nb)])
+            if kind == "nanmedian":
+                allnan = z3.ForAll(p, z3.Implies(inw, fl.isnan(el)))
+                lo = z3.Exists(p, z3.And(inw, z3.Not(fl.isnan(el)), fl.le(el, r)))
+                hi = z3.Exists(p, z3.And(inw, z3.Not(fl.isnan(el)), fl.le(r, el)))
+                body = z3.And(fl.isnan(r) == allnan, z3.Implies(z3.Not(fl.isnan(r)), z3.And(lo, hi)))
+            else:
+                # np.sum: NaN as soon as one element is NaN; over NaN-or-finite elements it is NaN only then, and finite otherwise
+                anynan = z3.Exists(p, z3.And(inw, fl.isnan(el)))
+                tame = z3.ForAll(p, z3.Implies(inw, z3.Or(fl.isnan(el), fl.isfin(el))))
+                body = z3.And(z3.Implies(anynan, fl.isnan(r)), z3.Implies(tame, z3.And(fl.isnan(r) == anynan, z3.Or(fl.isnan(r), fl.isfin(r)))))
+            self.axioms.append(z3.ForAll(o + e, z3.Implies(nonempty, body), patterns=[UFk(*(o + e))]))
         self._uf_cache[key] = (UFk, UFv)
         return UFk, UFv
 
-    def window_reduce(self, a, axes, tag, st, n, extra=(), nanmedian=False):
-        arr0, origin, h, w, out_shape = self.window_geometry(a, axes, n)
-        UFk, UFv = self.window_uf(arr0, tag, st, len(extra), nanmedian)
+    def window_reduce(self, a, axes, tag, st, n, extra=(), kind=None):
+        arr0, origin, extents, out_shape = self.window_geometry(a, axes, n)
+        UFk, UFv = self.window_uf(arr0, tag, st, len(extra), kind)
         ex = [fl.F(x).v if not z3.is_expr(x) or not z3.is_real(x) else x for x in extra]
 
-        def get(ix, st2, origin=origin, h=h, w=w, ex=ex):
-            y0, x0 = origin(ix)
-            argv = [y0, x0, h, w] + ex
+        def get(ix, st2, origin=origin, extents=extents, ex=ex):
+            argv = list(origin(ix)) + list(extents) + ex
             return fl.SFloat(UFk(*argv), UFv(*argv))
         if not out_shape:
             return get([], st)
@@ -177,10 +218,32 @@ class WindowMixin:
         if isinstance(a, (SArr, LArr)):
             nd = len(shape_of(a))
             if nd == 4 and isinstance(axis, tuple) and tuple(axis) == (2, 3):
-                return self.window_reduce(a, (2, 3), "nanmedian", st, n, nanmedian=True)
+                return self.window_reduce(a, (2, 3), "nanmedian", st, n, kind="nanmedian")
             if nd == 2 and axis is None:
-                return self.window_reduce(a, (0, 1), "nanmedian", st, n, nanmedian=True)
+                return self.window_reduce(a, (0, 1), "nanmedian", st, n, kind="nanmedian")
         return super().b_numpy_nanmedian(args, kw, st, n)
+
+    def b_numpy_sum(self, args, kw, st, n):
+        a = args[0]
+        axis = kw.get("axis", args[1] if len(args) > 1 else None)
+        if isinstance(a, tuple) and a and isinstance(a[0], str) and a[0] == "sview":
+            a = self.sview_to_lazy(a)
+        if isinstance(a, LArr) and a.base is not None and a.dt == "f":
+            nd = len(shape_of(a))
+            if axis is None:
+                axes = tuple(range(nd))
+            elif isinstance(axis, int):
+                axes = (axis if axis >= 0 else axis + nd,)
+            elif isinstance(axis, tuple) and all(isinstance(x, int) for x in axis):
+                axes = tuple(x if x >= 0 else x + nd for x in axis)
+            else:
+                axes = None
+            if axes:
+                try:
+                    return self.window_reduce(a, axes, "sum", st, n, kind="sum")
+                except Unsupported:
+                    pass
+        return super().b_numpy_sum(args, kw, st, n)
 
     def call_target(self, target, args, kwargs, st, n):
         oc = self.opt("opaque_calls", None)
